@@ -180,6 +180,9 @@ func poolByName(name string, quick bool) *hist.Pool {
 	if name == "hosts" {
 		return c02.HostPool()
 	}
+	if name == "infix2" {
+		return c02.Infix2Pool()
+	}
 	return c02.PoolFor(quick)
 }
 
@@ -473,6 +476,7 @@ func run(c *mc.Ctx, r *mc.Result) {
 		add(func(r *mc.Result) { runPool(c, r, "methods", c02.MethodPool(), 3, 3, 20000) })
 		add(func(r *mc.Result) { runPool(c, r, "nested", c02.NestPool(), 4, 4, 20000) })
 		add(func(r *mc.Result) { runPool(c, r, "hosts", c02.HostPool(), 3, 3, 20000) })
+		add(func(r *mc.Result) { runPool(c, r, "infix2", c02.Infix2Pool(), 3, 3, 20000) })
 		add(func(r *mc.Result) { runBodies(c, r, "prefixes", c02.PoolFor(true), 2, 2) })
 		add(func(r *mc.Result) { runBodies(c, r, "siblings", c02.SiblingPool(), 3, 2) })
 		add(func(r *mc.Result) { runBodies(c, r, "nested", c02.NestPool(), 2, 2) })
@@ -483,6 +487,7 @@ func run(c *mc.Ctx, r *mc.Result) {
 		add(func(r *mc.Result) { runPool(c, r, "siblings", c02.SiblingPool(), 6, 5, 60000) })
 		add(func(r *mc.Result) { runPool(c, r, "nested", c02.NestPool(), 6, 5, 60000) })
 		add(func(r *mc.Result) { runPool(c, r, "hosts", c02.HostPool(), 5, 4, 60000) })
+		add(func(r *mc.Result) { runPool(c, r, "infix2", c02.Infix2Pool(), 5, 4, 60000) })
 		add(func(r *mc.Result) { runBodies(c, r, "prefixes", c02.PoolFor(true), 3, 2) })
 		add(func(r *mc.Result) { runBodies(c, r, "siblings", c02.SiblingPool(), 4, 2) })
 		add(func(r *mc.Result) { runBodies(c, r, "nested", c02.NestPool(), 3, 2) })
